@@ -8,7 +8,9 @@
 (*    sig  identity of (operation, operand ids),  res  identity of the     *)
 (*         returned value / created operator / raised exception class,     *)
 (*    ow   <<digest of every caller-owned array>>  (fixed order),          *)
-(*    ops  <<[d, a, l]>>  dense / annotation-set / flatten-leaves identity *)
+(*    ops  <<[d, a, l, h]>>  dense / annotation-set / flatten-leaves /     *)
+(*         full-state identity (shape, dtype, static fields and every      *)
+(*         attribute reachable from the instance, hidden ones included)    *)
 (*         of every live operator AFTER the event, in creation order,      *)
 (*    ab, aa  layout sweep only (0, 0 otherwise): identity of the swept    *)
 (*         ARGUMENT - bytes, shape, strides, flags of the array handed to  *)
@@ -20,9 +22,9 @@
 (* The state carries owned, ops, memo of module Persist along each path    *)
 (* and the verdict of the last event:                                      *)
 (*   arr   every caller-owned array is unchanged        (array_mutated)    *)
-(*   den / ann / lea   every pre-existing operator has the same dense      *)
-(*         matrix / annotations / leaves (operator_changed,                *)
-(*         annotations_changed)                                            *)
+(*   den / ann / lea / hid   every pre-existing operator - operand of the  *)
+(*         call or not - has the same dense matrix / annotations / leaves  *)
+(*         / full state (operator_changed, annotations_changed)            *)
 (*   grow  at most one operator was created, none disappeared              *)
 (*   argf  the argument of the call is what it was before the call         *)
 (*         (frame condition on arguments, in whatever layout)              *)
@@ -38,7 +40,7 @@ N == Len(Nodes)
 
 VARIABLES l, owned, ops, memo, v
 
-AllTrue == [arr |-> TRUE, argf |-> TRUE, den |-> TRUE, ann |-> TRUE, lea |-> TRUE, grow |-> TRUE, rep |-> TRUE]
+AllTrue == [arr |-> TRUE, argf |-> TRUE, den |-> TRUE, ann |-> TRUE, lea |-> TRUE, hid |-> TRUE, grow |-> TRUE, rep |-> TRUE]
 
 Judge(e, ow, op, m) ==
     LET k == Len(op) IN
@@ -48,6 +50,7 @@ Judge(e, ow, op, m) ==
      den  |-> \A i \in 1..k: i <= Len(e.ops) => e.ops[i].d = op[i].d,
      ann  |-> \A i \in 1..k: i <= Len(e.ops) => e.ops[i].a = op[i].a,
      lea  |-> \A i \in 1..k: i <= Len(e.ops) => e.ops[i].l = op[i].l,
+     hid  |-> \A i \in 1..k: i <= Len(e.ops) => e.ops[i].h = op[i].h,
      rep  |-> \A q \in 1..Len(m): m[q][1] = e.sig => m[q][2] = e.res]
 
 Known(m, s) == \E q \in 1..Len(m): m[q][1] = s
@@ -69,6 +72,6 @@ Next == \E c \in Nodes[l].fc .. (Nodes[l].fc + Nodes[l].nc - 1):
 
 Spec == Init /\ [][Next]_<<l, owned, ops, memo, v>>
 
-Accepted == v.arr /\ v.argf /\ v.den /\ v.ann /\ v.lea /\ v.grow /\ v.rep
+Accepted == v.arr /\ v.argf /\ v.den /\ v.ann /\ v.lea /\ v.hid /\ v.grow /\ v.rep
 Verdict == Accepted \/ PrintT(ToJson([l |-> l, v |-> v]))
 =============================================================================
